@@ -271,7 +271,9 @@ def check(case):
         from .. import pristine
         firsts = [next(t for t in dec if t["id"] == ids[0]) for g, ids in sorted(groups.items())]
         firsts = [t for t in firsts if not w.tasks[t["id"]].cancelled]
-        fresh = pristine.run_fresh(firsts)
+        opt = (case.get("_run") or {}).get("index", 0) % 2 == 1      # every other time an interpreter started with -O
+        fresh = pristine.run_fresh(firsts, optimize=opt)
+        res.count("compared-with-fresh-interpreter:-O" if opt else "compared-with-fresh-interpreter:plain")
         res.count("compared-with-fresh-interpreter", len(firsts))
         for spec_, fr in zip(firsts, fresh):
             t = w.tasks[spec_["id"]]
